@@ -25,7 +25,7 @@ static void dec_semq(const void* base, char* out, size_t cap) {
   n += (size_t)snprintf(out + n, cap - n, "[");
   const mpmc_fifo_node_t* h = (const mpmc_fifo_node_t*)s->waiters.head;
   int first = 1, guard = 0;
-  for (const mpmc_fifo_node_t* x = h ? h->prev : NULL; x && n + 48 < cap && guard < 64; x = x->prev, guard++) {
+  for (const mpmc_fifo_node_t* x = h ? h->prev : NULL; x && n + 48 < cap && guard < 200; x = x->prev, guard++) {
     n += (size_t)snprintf(out + n, cap - n, "%s\"%s\"", first ? "" : ",", vrt_name_of(x->value));
     first = 0;
   }
